@@ -16,9 +16,11 @@ from vf.runner import ToolError
 LEVEL = 'fault_enumeration'
 RULE = ('Fault origins {early listener, ordinary listener, built-in reaction '
         '(login disconnect), built-in reaction (malformed status JSON), '
-        'decoder (play frame ending inside a field), exit callback, built-in '
-        'reaction failing on a send fault (flush of queued replies inside '
-        'disconnect() after the server has gone), built-in reaction in the '
+        'decoder (play frame ending inside a field), exit callback, ordinary '
+        'listener for the server\'s disconnect packet (raises after the '
+        'built-in reaction has run: two replies were queued, the server is '
+        'gone and the flush inside disconnect() met EPIPE, which '
+        'disconnect() absorbs; connected is already False), built-in reaction in the '
         'status phase of a multi-version connect (empty status object)} x '
         'handler '
         'chains of length 0-2 (quick) / 0-3 (thorough), each handler = (type '
@@ -35,7 +37,7 @@ ASSUMPTIONS = ['the reference interpreter below encodes the documented '
 
 V = 757
 ORIGINS = ('early_listener', 'listener', 'reaction_login', 'reaction_status',
-           'decoder', 'exit_callback', 'reaction_flush_fault',
+           'decoder', 'exit_callback', 'listener_on_disconnect',
            'reaction_negotiation')
 FILTERS = ('orig', 'repl', 'none', 'all')
 ACTIONS = ('return', 'raise', 'reconnect')
@@ -67,7 +69,7 @@ def orig_type(origin):
             'reaction_login': LoginDisconnect,
             'reaction_status': json.JSONDecodeError,
             'decoder': struct.error,
-            'reaction_flush_fault': BrokenPipeError,
+            'listener_on_disconnect': Orig,
             'reaction_negotiation': OSError}[origin]
 
 
@@ -143,10 +145,12 @@ def body(W, origin, chain, final):
         if origin == 'exit_callback':
             return {'login': [('success',)],
                     'play_script': [('disconnect', '{"text":"bye"}')]}
-        if origin == 'reaction_flush_fault':
+        if origin == 'listener_on_disconnect':
             # two replies are queued when the disconnect packet is reacted
             # to; the server is gone by then and the environment answers the
-            # flush inside disconnect() with EPIPE: the reaction itself fails
+            # flush inside disconnect() with EPIPE (which disconnect() must
+            # absorb); then an ordinary listener for the disconnect packet
+            # raises - with 'connected' already False
             return {'login': [('success',)],
                     'play_script': [('keepalive', 1), ('keepalive', 2),
                                     ('disconnect', '{"text":"bye"}')]}
@@ -201,6 +205,11 @@ def body(W, origin, chain, final):
                                       early=True)
     elif origin == 'listener':
         conn.register_packet_listener(raiser, clientbound.play.KeepAlivePacket)
+    elif origin == 'listener_on_disconnect':
+        def on_disc(p):
+            raise Orig('from a listener for the disconnect packet')
+        conn.register_packet_listener(on_disc,
+                                      clientbound.play.DisconnectPacket)
     if origin == 'reaction_status':
         conn.status(handle_status=lambda s: None, handle_ping=False)
     else:
@@ -319,7 +328,7 @@ def chains(maxlen):
 
 
 def netkw(origin):
-    if origin == 'reaction_flush_fault':
+    if origin == 'listener_on_disconnect':
         return {'send_after_close': 'raise'}
     return {}
 
